@@ -15,11 +15,15 @@ EXPR  := ["num", c]            python literal (goes through _ensure_expr)
        | ["fn", fname, a]      fname in FUNCS
        | ["vsum", VEC] | ["lincomb", [c..], VEC] | ["dot", VEC, VEC]
        | ["quad", VEC, [[..]..]] | ["norm", VEC, ord]
+       | ["qform", VEC, [[..]..]]   quadratic_form(v, Q)      | ["bilin", VEC, Q, VEC]
+       | ["trace", mat] | ["frob", mat] (frobenius_norm: evaluates, cannot be compiled)
        | ["chain", op, [EXPR..]]   left-deep accumulation
 VEC   := ["vec", name] | ["vslice", name, a, b] | ["mrow", mat, i] | ["mcol", mat, j]
        | ["mdiag", mat] | ["vscale", VEC, c] | ["vshift", VEC, c]
+       | ["matvec", [[..]..], VEC]  constant array @ vector    | ["mvprod", mat, VEC]  MatrixVariable @ vector
+       | ["vfn", fname, VEC] | ["vpow", VEC, k]   element-wise function / power
 CON   := {"k":"s", "lhs":EXPR, "sense": "<="|">="|"==", "rhs": EXPR}
-       | {"k":"v", "lhs":VEC,  "sense": ..., "rhs": number}       (list of constraints)
+       | {"k":"v", "lhs":VEC,  "sense": ..., "rhs": number | [numbers]}   (list of constraints; A @ x <= b)
 """
 
 from __future__ import annotations
@@ -121,16 +125,26 @@ def vec_mentioned(spec, vec):
         for e in vec[1]:
             mentioned(spec, e, acc)
         return acc
-    if vec[0] in ("vscale", "vshift"):
+    if vec[0] in ("vscale", "vshift", "vpow"):
         return vec_mentioned(spec, vec[1])
+    if vec[0] in ("matvec", "vfn"):
+        return vec_mentioned(spec, vec[2])
+    if vec[0] == "mvprod":
+        return set(element_names(var_decl(spec, vec[1]))) | vec_mentioned(spec, vec[2])
     return set(vec_names(spec, vec))
 
 
 def vec_len(spec, vec):
     if vec[0] == "vexpr":
         return len(vec[1])
-    if vec[0] in ("vscale", "vshift"):
+    if vec[0] in ("vscale", "vshift", "vpow"):
         return vec_len(spec, vec[1])
+    if vec[0] == "matvec":
+        return len(vec[1])
+    if vec[0] == "vfn":
+        return vec_len(spec, vec[2])
+    if vec[0] == "mvprod":
+        return var_decl(spec, vec[1])["rows"]
     return len(vec_names(spec, vec))
 
 
@@ -166,8 +180,14 @@ def mentioned(spec, e, acc=None):
         elif t == "dot":
             acc.update(vec_mentioned(spec, e[1]))
             acc.update(vec_mentioned(spec, e[2]))
-        elif t in ("quad", "norm"):
+        elif t in ("quad", "norm", "qform"):
             acc.update(vec_mentioned(spec, e[1]))
+        elif t in ("trace", "frob"):
+            d = var_decl(spec, e[1])
+            if t == "trace":
+                acc.update(mel_name(d, i, i) for i in range(d["rows"]))
+            else:
+                acc.update(element_names(d))
         elif t == "bilin":
             acc.update(vec_mentioned(spec, e[1]))
             acc.update(vec_mentioned(spec, e[3]))
@@ -211,8 +231,10 @@ def params_in(e, acc=None):
             stack.append(e[2])
         elif t == "chain":
             stack.extend(e[2])
-        elif t in ("vsum", "norm", "quad"):
+        elif t in ("vsum", "norm", "quad", "qform", "vpow"):
             stack.append(e[1])
+        elif t in ("matvec", "vfn", "mvprod"):
+            stack.append(e[2])
         elif t == "bilin":
             stack.append(e[1])
             stack.append(e[3])
@@ -350,6 +372,27 @@ def _build_vec(m, vec):
         return build_vec(m, vec[1]) * vec[2]
     if t == "vshift":
         return build_vec(m, vec[1]) + vec[2]
+    if t == "matvec":
+        # A @ x with a constant array A (the textbook way to write LP rows); for an operand that is
+        # itself a vector expression the public helper is used
+        import numpy as np
+        import optyx as ox
+        from optyx.core.vectors import VectorVariable
+
+        inner = build_vec(m, vec[2])
+        A = np.array(vec[1], dtype=float)
+        return A @ inner if isinstance(inner, VectorVariable) else ox.matmul(A, inner)
+    if t == "vfn":
+        import optyx as ox
+
+        f = {"sin": ox.sin, "cos": ox.cos, "exp": ox.exp, "log": ox.log, "sqrt": ox.sqrt, "abs": ox.abs_,
+             "tanh": ox.tanh, "cosh": ox.cosh, "sinh": ox.sinh, "tan": ox.tan}[vec[1]]
+        return f(build_vec(m, vec[2]))
+    if t == "vpow":
+        return build_vec(m, vec[1]) ** vec[2]
+    if t == "mvprod":
+        # M @ v with a MatrixVariable M: a vector of bilinear expressions
+        return m.vars[vec[1]] @ build_vec(m, vec[2])
     raise ValueError(f"bad VEC {vec!r}")
 
 
@@ -441,7 +484,18 @@ def build_expr(m, e):
         # a' Q b with two (possibly different) views: a.dot(Q @ b)
         return build_vec(m, e[1]).dot(np.array(e[2], dtype=float) @ build_vec(m, e[3]))
     if t == "norm":
-        return build_vec(m, e[1]).norm(e[2])
+        v = build_vec(m, e[1])
+        if hasattr(v, "norm"):
+            return v.norm(e[2])
+        from optyx.core.vectors import norm as _norm
+
+        return _norm(v, e[2])
+    if t == "qform":
+        return ox.quadratic_form(build_vec(m, e[1]), np.array(e[2], dtype=float))
+    if t == "trace":
+        return ox.trace(m.vars[e[1]])
+    if t == "frob":
+        return ox.frobenius_norm(m.vars[e[1]])  # evaluates, but has no compiler case
     if t == "chain":
         terms = e[2]
         acc = build_expr(m, terms[0])
@@ -480,11 +534,16 @@ def build_con(m, con):
             return M >= rhs
         return M.eq(rhs)
     lhs = build_vec(m, con["lhs"])
+    rhs = con["rhs"]
+    if isinstance(rhs, list):
+        import numpy as np
+
+        rhs = np.array(rhs, dtype=float)  # A @ x <= b
     if con["sense"] == "<=":
-        return lhs <= con["rhs"]
+        return lhs <= rhs
     if con["sense"] == ">=":
-        return lhs >= con["rhs"]
-    return lhs.eq(con["rhs"])
+        return lhs >= rhs
+    return lhs.eq(rhs)
 
 
 # --------------------------------------------------------------------------
@@ -582,6 +641,17 @@ def eval_vec(spec, vec, pt, pv=None):
         return [x * vec[2] for x in eval_vec(spec, vec[1], pt, pv)]
     if t == "vshift":
         return [x + vec[2] for x in eval_vec(spec, vec[1], pt, pv)]
+    if t == "matvec":
+        v = eval_vec(spec, vec[2], pt, pv)
+        return [sum(a * x for a, x in zip(row, v)) for row in vec[1]]
+    if t == "vfn":
+        return [_FN[vec[1]](x) for x in eval_vec(spec, vec[2], pt, pv)]
+    if t == "vpow":
+        return [x ** vec[2] for x in eval_vec(spec, vec[1], pt, pv)]
+    if t == "mvprod":
+        d = var_decl(spec, vec[1])
+        v = eval_vec(spec, vec[2], pt, pv)
+        return [sum(pt[mel_name(d, i, j)] * v[j] for j in range(d["cols"])) for i in range(d["rows"])]
     return [pt[n] for n in vec_names(spec, vec)]
 
 
@@ -625,9 +695,15 @@ def eval_expr(spec, e, pt, pv=None):
         return sum(c * x for c, x in zip(e[1], eval_vec(spec, e[2], pt, pv)))
     if t == "dot":
         return sum(a * b for a, b in zip(eval_vec(spec, e[1], pt, pv), eval_vec(spec, e[2], pt, pv)))
-    if t == "quad":
+    if t in ("quad", "qform"):
         v = eval_vec(spec, e[1], pt, pv)
         return sum(v[i] * e[2][i][j] * v[j] for i in range(len(v)) for j in range(len(v)))
+    if t == "trace":
+        d = var_decl(spec, e[1])
+        return sum(pt[mel_name(d, i, i)] for i in range(d["rows"]))
+    if t == "frob":
+        d = var_decl(spec, e[1])
+        return _math.sqrt(sum(pt[mel_name(d, i, j)] ** 2 for i in range(d["rows"]) for j in range(d["cols"])))
     if t == "bilin":
         a = eval_vec(spec, e[1], pt, pv)
         b = eval_vec(spec, e[3], pt, pv)
@@ -658,7 +734,9 @@ def con_violations(spec, con, pt, pv=None):
     elif con["k"] == "s":
         vals = [eval_expr(spec, con["lhs"], pt, pv) - eval_expr(spec, con["rhs"], pt, pv)]
     else:
-        vals = [x - con["rhs"] for x in eval_vec(spec, con["lhs"], pt, pv)]
+        lv = eval_vec(spec, con["lhs"], pt, pv)
+        rv = con["rhs"] if isinstance(con["rhs"], list) else [con["rhs"]] * len(lv)
+        vals = [x - r for x, r in zip(lv, rv)]
     out = []
     for v in vals:
         if con["sense"] == "<=":
